@@ -44,8 +44,7 @@ trees do not round-trip in today's code; `Valid` excludes exactly them (and ill-
 def Producible (T : Table) : E → Bool
   | .atom _ => true
   | .un o e => T.unOps.contains o && Producible T e
-  | .post (.atom _) o => T.postOps.contains o
-  | .post _ _ => false
+  | .post e o => T.postOps.contains o && Producible T e && (match e with | .post _ _ => false | _ => true)
   | .bin k o l r =>
     ((T.ladder.any fun lv => lv.kind == k && lv.ops.contains o) || (k == .bin && o == T.powOp)) &&
       Producible T l && Producible T r
